@@ -7,6 +7,7 @@ package main
 
 import (
 	"go/types"
+	"strconv"
 	"strings"
 
 	"golang.org/x/tools/go/ssa"
@@ -60,7 +61,17 @@ func (ex *Exec) RunGlobalInit(key string) string {
 		fn := findGlobalInitializerCall(g)
 		if fn == nil {
 			if sl := findGlobalInitSlice(g); sl != nil {
-				return ex.runInitSlice(g, sl)
+				msg := ex.runInitSlice(g, sl)
+				if msg == "" {
+					msg = ex.runInitFuncs(initFuncsTouching(g))
+				}
+				if msg != "" && !strings.HasPrefix(msg, "NEEDINIT: ") {
+					if ex.globalInitFailed == nil {
+						ex.globalInitFailed = map[string]bool{}
+					}
+					ex.globalInitFailed[key] = true
+				}
+				return msg
 			}
 			return "no initialiser call"
 		}
@@ -262,4 +273,72 @@ func (ex *Exec) RunGlobalInitDeep(key string, depth int) string {
 		msg = ex.RunGlobalInit(key)
 	}
 	return msg
+}
+
+// ---- registries filled by init() functions
+//
+// A map of functions (e.g. common.typeIDDecoders) cannot be carried by the reflection snapshot;
+// it is declared with an initialiser and filled by source-level init() functions that call a
+// Register... function.  Such a global is initialised by the slice of its declaration followed by
+// every source-level init function of the package that refers to it, directly or through a callee
+// of the same package.
+
+func (ex *Exec) snapIsFuncMap(snap interface{}, t types.Type, key string) bool {
+	mt, ok := t.Underlying().(*types.Map)
+	if !ok {
+		return false
+	}
+	if _, isFunc := mt.Elem().Underlying().(*types.Signature); !isFunc {
+		return false
+	}
+	return !ex.globalInitFailed[key]
+}
+
+func refersTo(fn *ssa.Function, g *ssa.Global, depth int) bool {
+	for _, b := range fn.Blocks {
+		for _, in := range b.Instrs {
+			for _, op := range in.Operands(nil) {
+				if *op == ssa.Value(g) {
+					return true
+				}
+				if callee, ok := (*op).(*ssa.Function); ok && depth > 0 && callee.Pkg == g.Pkg && callee != fn {
+					if refersTo(callee, g, depth-1) {
+						return true
+					}
+				}
+			}
+		}
+	}
+	return false
+}
+
+func initFuncsTouching(g *ssa.Global) []*ssa.Function {
+	var res []*ssa.Function
+	for i := 1; ; i++ {
+		f := g.Pkg.Func("init#" + strconv.Itoa(i))
+		if f == nil {
+			break
+		}
+		if refersTo(f, g, 2) {
+			res = append(res, f)
+		}
+	}
+	return res
+}
+
+func (ex *Exec) runInitFuncs(fns []*ssa.Function) string {
+	saved := ex.Pinned
+	ex.Pinned = nil
+	defer func() { ex.Pinned = saved }()
+	for _, f := range fns {
+		outs := ex.CallFn(ex.Base, f, nil, nil, 1)
+		if len(outs) != 1 || outs[0].Kind != ORet {
+			if len(outs) >= 1 && outs[0].Kind == OAbort {
+				return outs[0].Abort
+			}
+			return "init function forked or panicked: " + f.String()
+		}
+		ex.Base = outs[0].St
+	}
+	return ""
 }
